@@ -86,14 +86,32 @@ func directC19render(g *G, rep *Report) {
 		fail := c19FailingPrints[r.Intn(len(c19FailingPrints))]
 		var fs []srcFile
 		wantLine := 0
+		// every seventh bundle: ONE namespace spread over all the files (templates .t0 .. .t3); the file and the
+		// line of an error are those of the file that DEFINES the entry template, not of another file of the namespace
+		sharedNs := i%7 == 3
+		nsOf := func(d int) string {
+			if sharedNs {
+				return "nss"
+			}
+			return "ns" + strconv.Itoa(d)
+		}
+		tOf := func(d int) string {
+			if sharedNs {
+				return ".t" + strconv.Itoa(d)
+			}
+			return ".t"
+		}
+		if sharedNs {
+			rep.Distribution["one-namespace-over-all-files"]++
+		}
 		for d := 0; d <= depth; d++ {
 			var b strings.Builder
-			b.WriteString("{namespace ns" + strconv.Itoa(d) + "}\n")
+			b.WriteString("{namespace " + nsOf(d) + "}\n")
 			pad := r.Intn(4)
 			for k := 0; k < pad; k++ {
 				b.WriteString("// pad\n")
 			}
-			b.WriteString("/**\n * @param? n\n * @param? l\n * @param? s\n * @param? u\n * @param? c\n * @param? c2\n */\n{template .t}\n{if false}{$n}{$l}{$s}{$u}{$c}{$c2}{/if}\n")
+			b.WriteString("/**\n * @param? n\n * @param? l\n * @param? s\n * @param? u\n * @param? c\n * @param? c2\n */\n{template " + tOf(d) + "}\n{if false}{$n}{$l}{$s}{$u}{$c}{$c2}{/if}\n")
 			body := r.Intn(4)
 			for k := 0; k < body; k++ {
 				b.WriteString("line {$s} " + strconv.Itoa(k) + "\n")
@@ -106,7 +124,7 @@ func directC19render(g *G, rep *Report) {
 					b.WriteString(fail + "\n")
 				}
 			} else {
-				callee := "ns" + strconv.Itoa(d+1) + ".t"
+				callee := nsOf(d+1) + tOf(d+1)
 				switch r.Intn(4) {
 				case 0:
 					b.WriteString("a {call " + callee + " data=\"all\"/} b\n")
@@ -155,7 +173,7 @@ func directC19render(g *G, rep *Report) {
 		d := data.Map{"n": data.Null{}, "l": data.List{data.Int(1)}, "s": data.String("str")}
 		var rerr error
 		cls := safely(func() error {
-			rerr = soyhtml.NewTofu(reg).NewRenderer("ns0.t").Execute(&buf, d)
+			rerr = soyhtml.NewTofu(reg).NewRenderer(nsOf(0) + tOf(0)).Execute(&buf, d)
 			return rerr
 		})
 		rep.Distribution["depth"+strconv.Itoa(depth)+":"+cls]++
@@ -184,7 +202,7 @@ func directC19render(g *G, rep *Report) {
 			viol("c19r-position", "the render error points at "+got, got)
 			continue
 		}
-		if !strings.Contains(rerr.Error(), "ns0.t:"+strconv.Itoa(fp.Line())) {
+		if !strings.Contains(rerr.Error(), nsOf(0)+tOf(0)+":"+strconv.Itoa(fp.Line())) {
 			viol("c19r-text", "the line number in the message text differs from the error's fields", rerr.Error())
 			continue
 		}
